@@ -535,3 +535,21 @@ def check_c04(ctx):
 
 CHECKS["C03"] = check_c03
 CHECKS["C04"] = check_c04
+
+
+def cache_scenarios(ctx, kinds, pick=None):
+    scs = []
+    for (kind, kt, vt) in kinds:
+        for strat in scen.strategies(ctx.tier, lib.seed()):
+            for s in scen.cache_families(kind, kt, vt, strat):
+                if pick is None or any(s["name"].startswith(p) for p in pick):
+                    scs.append(s)
+    return scs
+
+
+def check_c02(ctx):
+    kinds = [("Cache", "", ""), ("CacheOf", "string", "any")] + ([("CacheOf", "int", "int")] if ctx.thorough else [])
+    run_conc(ctx, cache_scenarios(ctx, kinds), "Trace_CacheLin", "C02", "cache families")
+
+
+CHECKS["C02"] = check_c02
